@@ -47,59 +47,60 @@ type spawnRec struct {
 }
 
 type Engine struct {
-	prog        *ssa.Program
-	hpkg        *ssa.Package
-	obligs      []*Oblig
-	obIndex     map[string]*Oblig
-	assumes     []*Term
-	loops       map[*ssa.Function]*loopForest
-	depth       int
-	maxDepth    int
-	maxUnwind   int
-	unwindFor   map[string]int // per function name
-	maxRecur    int
-	recurFor    map[string]int
-	defaultCap  int // capacity bound for allocations of symbolic size
-	globals     map[*ssa.Global]*Object
-	nondets     map[string]*Nondet
-	nondetOrder []string
-	replace     map[string]*ssa.Function
-	noops       map[string]bool
-	active      map[*ssa.Function]int
-	funcsSeen   map[string]bool
-	spawned     []*spawnRec
-	goQueue     bool
-	rangeNoDedupe bool
-	blocksRun   int
-	edges       int
-	calls       int
-	fset        *token.FileSet
-	panicsOff   bool // inside spec code marked with vSpecBegin/End: panics still recorded
-	expectPanic map[string]bool
-	initDone    map[*ssa.Package]bool
-	verifInitDone map[*ssa.Package]bool
-	tolerant    int // >0 while executing package init code
-	selectN     int
-	feasBudget  float64
-	onlyVerifInit bool
+	prog                 *ssa.Program
+	hpkg                 *ssa.Package
+	obligs               []*Oblig
+	growFeasSecs         float64
+	obIndex              map[string]*Oblig
+	assumes              []*Term
+	loops                map[*ssa.Function]*loopForest
+	depth                int
+	maxDepth             int
+	maxUnwind            int
+	unwindFor            map[string]int // per function name
+	maxRecur             int
+	recurFor             map[string]int
+	defaultCap           int // capacity bound for allocations of symbolic size
+	globals              map[*ssa.Global]*Object
+	nondets              map[string]*Nondet
+	nondetOrder          []string
+	replace              map[string]*ssa.Function
+	noops                map[string]bool
+	active               map[*ssa.Function]int
+	funcsSeen            map[string]bool
+	spawned              []*spawnRec
+	goQueue              bool
+	rangeNoDedupe        bool
+	blocksRun            int
+	edges                int
+	calls                int
+	fset                 *token.FileSet
+	panicsOff            bool // inside spec code marked with vSpecBegin/End: panics still recorded
+	expectPanic          map[string]bool
+	initDone             map[*ssa.Package]bool
+	verifInitDone        map[*ssa.Package]bool
+	tolerant             int // >0 while executing package init code
+	selectN              int
+	feasBudget           float64
+	onlyVerifInit        bool
 	hookDepth, hookLimit int
-	abstractBig bool
-	shadow      map[string]int64  // high-level nondet values to follow (debug)
-	shadowAsg   map[string]uint64 // solver-variable assignment derived from shadow
-	shadowMemo  map[int]uint64
-	shadowLog   *os.File
-	stack       []string
-	feas        *solverProc
-	feasN, feasCut int
-	feasSecs    float64
-	feasAsserted int
-	noFeas      bool
-	maxTerms    int
-	deadline    time.Time
-	traceCalls  bool
-	traces      []traceRec
-	pin         map[string]int64
-	pinCase     map[string]int64
+	abstractBig          bool
+	shadow               map[string]int64  // high-level nondet values to follow (debug)
+	shadowAsg            map[string]uint64 // solver-variable assignment derived from shadow
+	shadowMemo           map[int]uint64
+	shadowLog            *os.File
+	stack                []string
+	feas                 *solverProc
+	feasN, feasCut       int
+	feasSecs             float64
+	feasAsserted         int
+	noFeas               bool
+	maxTerms             int
+	deadline             time.Time
+	traceCalls           bool
+	traces               []traceRec
+	pin                  map[string]int64
+	pinCase              map[string]int64
 }
 
 type traceRec struct {
@@ -152,6 +153,9 @@ func (e *Engine) checkBudget() {
 		abort("symbolic execution memory budget exceeded: %d MB heap after %d block instances, %d term nodes", ms.HeapAlloc>>20, e.blocksRun, nTerms)
 	}
 	if e.maxTerms > 0 && nTerms > e.maxTerms {
+		if os.Getenv("VERIF_TERMHIST") != "" {
+			termHistogram()
+		}
 		abort("symbolic execution budget exceeded: %d term nodes after %d block instances", nTerms, e.blocksRun)
 	}
 	if !e.deadline.IsZero() && time.Now().After(e.deadline) {
@@ -1043,7 +1047,6 @@ func (fr *frame) stringToBytes(s StringV) SliceV {
 	return SliceV{alts: []SliceAlt{{g: True, obj: obj, off: BV(IntW, 0), ln: s.n, cap: s.n}}}
 }
 
-
 // feasibleSMT asks a persistent solver whether guard g is satisfiable together with the assumptions made so far.
 // Only a definite "unsat" prunes; unknown, timeouts and errors keep the path. (Dead-work pruning only: an
 // iteration that is cut here would have contributed obligations with an unsatisfiable guard.)
@@ -1088,7 +1091,6 @@ func (e *Engine) feasibleSMT(g *Term) bool {
 	}
 	return true
 }
-
 
 func (e *Engine) shadowEval(t *Term) uint64 {
 	return evalTerm(t, e.shadowAsg, e.shadowMemo)
@@ -1160,7 +1162,6 @@ func (e *Engine) logShadow(fr *frame, ins ssa.Instruction, g *Term) {
 	}
 	fmt.Fprintf(e.shadowLog, "%s %s = %s  :: %s\n", fr.fn.Name(), v.Name(), desc, ins.String())
 }
-
 
 // worthAsking throttles solver feasibility queries at loop headers when they rarely prune anything.
 func (e *Engine) worthAsking(iter int) bool {
